@@ -138,6 +138,9 @@ type twEngine struct {
 	// twap_time_test.go
 	hdrZone   *time.Location // this history's block HEADERS carry this (non-UTC) location; nil = UTC, what consensus delivers
 	directed  string         // kind of pool the next createPool builds for a directed drain / refill history ("" = random)
+	seed      int64 // twap_tx_test.go: mass histories alternate with the seed and the number of the world history
+	worldIdx  int
+	massOK    bool
 	edgeBig   string         // bal2-edge pools: the denom with the huge reserve (the price against it rounds to zero)
 	edgeSmall string
 }
@@ -1488,7 +1491,7 @@ func runTwap(t *testing.T, seed int64, n int, dir string) {
 	o := NewOut(dir)
 	defaultPrune := twap.NumRecordsToPrunePerBlock
 	defer func() { twap.NumRecordsToPrunePerBlock = defaultPrune }()
-	e := &twEngine{r: r, o: o, logCache: map[string]*big.Float{}}
+	e := &twEngine{r: r, o: o, logCache: map[string]*big.Float{}, seed: seed}
 	// deterministic clock: the helper starts at time.Now()
 	base := time.Date(2030, 1, 1, 0, 0, 0, 0, time.UTC).Add(time.Duration(seed%977) * time.Hour)
 	freshApp := func() {
@@ -1512,6 +1515,7 @@ func runTwap(t *testing.T, seed int64, n int, dir string) {
 			before := o.n
 			hs, ps := e.h, e.prunedAt
 			wbase := time.Date(2040, 1, 1, 0, 0, 0, 0, time.UTC).Add(time.Duration(seed%977)*time.Hour + time.Duration(worlds%300)*700*time.Hour)
+			e.worldIdx, e.massOK = worlds, share == 2
 			worlds++
 			h := newH(t)
 			h.Ctx = h.Ctx.WithBlockTime(wbase)
